@@ -330,6 +330,16 @@ impl ModelSecp {
 					None => false,
 				};
 				p.as_array_mut().unwrap().push(json!(ok));
+				if !ok {
+					// one of the other proofs made for this commitment: [v, r, cb, false, variant]
+					if let Some((v, r)) = self.commits.get(&o.commitment().0.to_vec()) {
+						for ((av, ar, pv), ap) in self.alt_proofs.iter() {
+							if av == v && ar == r && ap.proof[..] == o.proof.proof[..] {
+								p.as_array_mut().unwrap().push(json!(pv));
+							}
+						}
+					}
+				}
 				p
 			})
 			.collect();
